@@ -34,7 +34,10 @@ func GetNextMineWindow(nextHeight uint32, distance uint32, parentTime int64, cur
 // GetCorrectMiner get the correct miner to mine a block after parent block
 func GetCorrectMiner(parent *types.Header, mineTime int64, mineTimeout int64, dm *deputynode.Manager) (common.Address, error) {
 	if mineTime < 1e10 {
-		panic("mineTime should be milliseconds")
+		// Seconds instead of milliseconds, or the timestamp of a block from the network which lies in early 1970. It was a panic: one
+		// block with such a timestamp, signed by any deputy, took down every node that verified it
+		log.Errorf("mineTime %d is not a time in milliseconds", mineTime)
+		return common.Address{}, ErrSmallerMineTime
 	}
 	passTime := mineTime - int64(parent.Time)*1000
 	if passTime < 0 {
